@@ -43,11 +43,15 @@ def cases(tier):
     out = []
     for cls in U.CLASSES:
         for setup in ("noflux", "robin", "periodic"):
-            out.append({"cls": cls, "setup": setup, "part": "ops"})
+            # operand state: just constructed (BC dirty flags still raised), after apply_BCs(), after a solvePDE
+            for state in ("fresh", "applied", "solved"):
+                out.append({"cls": cls, "setup": setup, "part": "ops", "state": state})
+                out.append({"cls": cls, "setup": setup, "part": "eval", "state": state})
             for i in range(len(BIN)):
-                out.append({"cls": cls, "setup": setup, "part": "trees", "first": i, "depth": 2 if tier == "quick" else 3})
+                for state in (("fresh", "applied") if tier == "quick" else ("fresh", "applied", "solved")):
+                    out.append({"cls": cls, "setup": setup, "part": "trees", "first": i, "depth": 2 if tier == "quick" else 3,
+                                "state": state})
         out.append({"cls": cls, "part": "face"})
-        out.append({"cls": cls, "part": "eval"})
     return out
 
 
@@ -103,7 +107,8 @@ def freeze(v, on=True):
 
 
 class Ctx:
-    def __init__(self, cls, setup):
+    def __init__(self, cls, setup, state="fresh"):
+        self.state = state
         self.cls = cls
         self.d = U.dim(cls)
         self.spec = U.spec(cls, SHAPES[self.d], ("I",) * self.d, 1)
@@ -114,7 +119,13 @@ class Ctx:
 
     def var(self, i):
         vals = U.generic_array(self.dims, tag=120 + 7 * i) / 8.0 + 0.5        # positive, distinct, O(1)
-        return pf.CellVariable(self.mesh, vals, make_bc(self.mesh, self.cls, self.setup, 3 * i))
+        v = pf.CellVariable(self.mesh, vals, make_bc(self.mesh, self.cls, self.setup, 3 * i))
+        if self.state == "applied":
+            v.apply_BCs()
+        elif self.state == "solved":
+            one = pf.CellVariable(self.mesh, 1.0)
+            pf.solvePDE(v, [pf.linearSourceTerm(one), pf.constantSourceTerm(pf.CellVariable(self.mesh, vals))])
+        return v
 
     def scalar(self, i):
         return [1.5, 0.75, 2.0][i % 3]
@@ -152,7 +163,7 @@ def check_result(ctx, res, F, seen, what, r, want, lead, operands):
         k = "C14:%s:%s" % (kind, what.split("|")[0])
         if k not in seen:
             seen.add(k)
-            F.append({"key": k, "msg": "%s on %s (%s BCs): %s" % (what, ctx.gid, ctx.setup, msg), "detail": {"grid": ctx.gid}})
+            F.append({"key": k, "msg": "%s on %s (%s BCs, operands %s): %s" % (what, ctx.gid, ctx.setup, ctx.state, msg), "detail": {"grid": ctx.gid, "state": ctx.state}})
     res["evals"] += 1
     res["nontrivial"] += 1
     if not isinstance(r, pf.CellVariable):
@@ -432,7 +443,7 @@ def _eval_part(ctx, res):
 
 def run_case(case):
     res = {"evals": 0, "nontrivial": 0, "findings": [], "outcomes": {}}
-    ctx = Ctx(case["cls"], case.get("setup", "noflux"))
+    ctx = Ctx(case["cls"], case.get("setup", "noflux"), case.get("state", "fresh"))
     part = case["part"]
     if part == "ops":
         _ops_part(ctx, res)
